@@ -48,8 +48,9 @@ def expected_state(login, rw):
 class C03(CheckBase):
     ID = "C03"
 
-    def __init__(self, maxs=3, max_a=3, max_b=1, pins=False, third=False, tokens=("A", "B")):
-        self.kw = dict(maxs=maxs, max_a=max_a, max_b=max_b, pins=pins, third=third, tokens=tuple(tokens))
+    def __init__(self, maxs=3, max_a=3, max_b=1, pins=False, third=False, tokens=("A", "B"), core=False):
+        self.kw = dict(maxs=maxs, max_a=max_a, max_b=max_b, pins=pins, third=third, tokens=tuple(tokens), core=core)
+        self.core = core
         self.maxs, self.max_per = maxs, {"A": max_a, "B": max_b, "C": 1}
         self.pins, self.third = pins, third
         self.tokens = tokens
@@ -72,6 +73,25 @@ class C03(CheckBase):
     def actions(self, m):
         acts = []
         toks = [t for t in self.tokens if m.tok[t].init] + (["C"] if self.third and m.tok["C"].init else [])
+        if self.core:
+            # the core alphabet of the UNMERGED enumeration (no state merging at all, so library state the key cannot see - tables, counters, caches left
+            # behind by earlier opens / closes / close-alls / logins - cannot hide): successful actions only, acting on the oldest / newest session
+            if len(m.sess) < self.maxs:
+                for t in toks:
+                    if sum(1 for s in m.sess if s[1] == t) < self.max_per[t]:
+                        acts.append(("open", t, 1))
+                        if t == "A":
+                            acts.append(("open", t, 0))
+            n = len(m.sess)
+            for i in sorted({0, n - 1} if n else ()):
+                acts.append(("close", i))
+            for t in toks:
+                acts.append(("closeall", t))
+            if n:
+                acts.append(("login", n - 1, C.CKU_USER, "right"))
+                acts.append(("login", n - 1, C.CKU_SO, "right"))
+                acts.append(("logout", n - 1))
+            return acts
         if len(m.sess) < self.maxs:
             for t in toks:
                 if sum(1 for s in m.sess if s[1] == t) < self.max_per[t]:
@@ -379,6 +399,22 @@ def main(tier):
             exhaustive = exhaustive and fix and dfs_ok
         finally:
             ex.close()
+    # unmerged enumeration of every sequence over the core alphabet (hidden library state cannot be merged away)
+    core_depth = 5 if quick else 6
+    ex = Explorer(C03(maxs=3, max_a=2, max_b=1, core=True), variant=variant, deadline=deadline)
+    try:
+        core_ok = ex.dfs(core_depth) if not ex._timeup() else False
+        confirm_violations(ex, rep)
+        st = ex.stats
+        runs.append({"config": "core alphabet (open rw/ro, close oldest/newest, close-all, user/SO login, logout; 2 tokens, <=3 sessions), no merging", "variant": variant,
+                     "unmerged_depth": core_depth, "unmerged_paths": st["dfs_paths"], "unmerged_transitions": st["dfs_transitions"], "complete": bool(core_ok)})
+        total["transitions"] += st["dfs_transitions"]
+        total["traces"] += st["dfs_paths"]
+        for k, v in st["counters"].items():
+            counters[k] = counters.get(k, 0) + v
+        exhaustive = exhaustive and bool(core_ok)
+    finally:
+        ex.close()
     positive = sum(counters.get(k, 0) for k in ("login_ok", "open_ok", "logout_ok", "close_ok"))
     if positive == 0 or counters.get("login_ok", 0) == 0:
         rep.harness_errors.append("vacuous: no successful login/open was explored")
